@@ -66,6 +66,17 @@ func (o *signalHandler) addSignalUser(userID uint64, signalID, messageID uint32,
 		contextID: 0,
 	}
 
+	// refuse an identifier already in use before touching the
+	// connection: the existing registration must stay untouched.
+	o.signalsMutex.RLock()
+	for _, user := range o.signals {
+		if user.userID == userID {
+			o.signalsMutex.RUnlock()
+			return fmt.Errorf("user %d already exists", userID)
+		}
+	}
+	o.signalsMutex.RUnlock()
+
 	e := from.EndPoint()
 	f := func(hdr *net.Header) (bool, bool) {
 		return false, true
@@ -78,14 +89,6 @@ func (o *signalHandler) addSignalUser(userID uint64, signalID, messageID uint32,
 	newUser.contextID = e.MakeHandler(f, q, cl)
 
 	o.signalsMutex.Lock()
-
-	for _, user := range o.signals {
-		if user.userID == userID {
-			o.signalsMutex.Unlock()
-			user.context.EndPoint().RemoveHandler(user.contextID)
-			return fmt.Errorf("user %d already exists", userID)
-		}
-	}
 	o.signals = append(o.signals, newUser)
 	o.signalsMutex.Unlock()
 	return nil
